@@ -11,10 +11,16 @@ import (
 )
 
 // generateCookie 生成无状态 DTLCP Cookie
-// 使用 HMAC-SM3(secret, clientAddr || clientParams)
+// 使用 HMAC-SM3(secret, uint16(len(clientAddr)) || clientAddr || clientParams)
+//
+// 地址前写入 2 字节长度：clientAddr 是变长字符串且 clientParams 的首字段（hello 版本号）
+// 由客户端控制，若直接拼接，("1.2.3.4:55", P) 与 ("1.2.3.4:5", "5"||P) 的 HMAC 输入相同，
+// 为一个地址签发的 cookie 可在另一个地址上通过验证。
 func generateCookie(secret []byte, clientAddr string, clientParams []byte) []byte {
 	h := hmac.New(sm3.New, secret)
-	h.Write([]byte(clientAddr))
+	addr := []byte(clientAddr)
+	h.Write([]byte{byte(len(addr) >> 8), byte(len(addr))})
+	h.Write(addr)
 	h.Write(clientParams)
 	return h.Sum(nil)
 }
